@@ -65,7 +65,12 @@ def _build(ctx, st, P, bad=None):
             f1.qualifiers.pop("citation")
         recs.append(st.record.CircularRecord(st.Seq("ACGTTGCAAGCT"), id="el%d" % i, name="n%d" % i, description="d",
                                              dbxrefs=["x:%d" % i], features=[f1, f2], annotations=ann))
+    if P.get("alias") == "shared-list":
+        # two features of one record share their citation list object (as a feature copied with qualifiers.copy() does)
+        recs[0].features[1].qualifiers["citation"] = recs[0].features[0].qualifiers["citation"]
     mods = [Mod(recs[i], st.Seq(starts[i]), st.Seq(ends[i]), SP) for i in range(m)]
+    if P.get("alias") == "twice":
+        mods.append(mods[0])  # the very same module object supplied twice
     vec = Vec(recs[m], st.Seq(up), st.Seq(down), SP)
     return vec, mods, recs
 
@@ -109,6 +114,9 @@ def ob_pure(ctx):
     if data_fault:
         allowed = ["InvalidSequence", "DuplicateModules", "raised:IndexError", "raised:ValueError"]
         ctx.witness("citation-fault-hit", o1["kind"].startswith("raised:"))
+    if P.get("alias"):
+        # whatever the call does with an aliased input (today: TypeError on the second dereference), it must be pure
+        allowed = allowed + ["raised:TypeError", "raised:ValueError", "raised:AttributeError", "raised:IndexError"]
     ctx.require(o1["kind"] in allowed, "undocumented-outcome:" + o1["kind"])
     after = [snapshot(r) for r in recs]
     for i, (a, b) in enumerate(zip(before, after)):
@@ -137,6 +145,9 @@ def ob_pure(ctx):
 
 def obligations(tier, seed):
     obs = []
+    for alias in ("twice", "shared-list"):
+        obs.append(Ob("purity with an aliased input (%s) m=1" % alias, ob_pure, dict(m=1, refs=True, sympos=0, alias=alias),
+                      samples=10, cost=4000))
     for m in range(1, tier_pick(tier, 2, 3) + 1):
         for refs in (True, False):
             for sympos in range(m + 1):
